@@ -12,12 +12,12 @@ from .fold import Evaluator, Raised, Unfoldable
 from .loader import AnalysisError, call_name, calls_in, walk_local
 
 
-def decide_with(env: Dict[str, Any], consts=None, defs=None) -> Callable:
+def decide_with(env: Dict[str, Any], consts=None, defs=None, hook=None) -> Callable:
     """A `decide` function for CFG.prune: fold a test under `env`; None if it mentions anything else."""
 
     def decide(test):
         try:
-            return bool(Evaluator(env, consts=consts, defs=defs).ev(test))
+            return bool(Evaluator(env, consts=consts, defs=defs, hook=hook).ev(test))
         except (Unfoldable, Raised):
             return None
 
@@ -75,7 +75,7 @@ def grid(**axes: Iterable) -> List[Dict[str, Any]]:
 
 
 def guard_table(tests: List[Tuple[ast.AST, bool]], points: List[Dict[str, Any]], bind: Callable,
-                consts=None, defs=None) -> List[Optional[bool]]:
+                consts=None, defs=None, hook_of: Optional[Callable] = None) -> List[Optional[bool]]:
     """For each grid point: does at least one guard exit?  Guards that mention atoms outside the
     bound language are ignored (they cannot be credited), which is conservative."""
     res = []
@@ -84,7 +84,7 @@ def guard_table(tests: List[Tuple[ast.AST, bool]], points: List[Dict[str, Any]],
         fired = False
         for t, pol in tests:
             try:
-                v = bool(Evaluator(env, consts=consts, defs=defs).ev(t))
+                v = bool(Evaluator(env, consts=consts, defs=defs, hook=hook_of(p) if hook_of else None).ev(t))
             except (Unfoldable, Raised):
                 continue
             if v == pol:
@@ -96,3 +96,24 @@ def guard_table(tests: List[Tuple[ast.AST, bool]], points: List[Dict[str, Any]],
 
 def fmt_tests(tests) -> str:
     return "; ".join(("" if pol else "not ") + "(" + ast.unparse(t) + ")" for t, pol in tests) or "<none>"
+
+
+def kind_name(func) -> str:
+    """Local name bound to the input kind: first element of `<a>, <b> = <x>.detect_genome(...)` (falls back to 'kind')."""
+    for n in walk_local(func):
+        if isinstance(n, ast.Assign) and isinstance(n.targets[0], ast.Tuple) and isinstance(n.value, ast.Call) \
+                and call_name(n.value).endswith("detect_genome") and isinstance(n.targets[0].elts[0], ast.Name):
+            return n.targets[0].elts[0].id
+    return "kind"
+
+
+def attr_hook(values: Dict[str, Any]):
+    """Evaluator hook binding attribute reads by their *attribute name* whatever the receiver is called
+    (profile.min_avg_coverage == prof.min_avg_coverage): {attr: value}."""
+
+    def hook(node, ev):
+        if isinstance(node, ast.Attribute) and node.attr in values and isinstance(node.ctx, ast.Load):
+            return values[node.attr]
+        return NotImplemented
+
+    return hook
